@@ -3,7 +3,7 @@ import ast
 
 from .astutil import unparse, dotted
 from .bitcells import (Unsupported, Param, View, Bits, CU32, ModVal, Maybe, TableVal, Opaque, FuncValue, TOP, PCell, INF,
-                       Record, RecordType)
+                       Record, RecordType, ClassValue, Obj, BoundMethod)
 from .bitexpr import CONSTS, STR_METHODS, is_pow2, norm_const
 
 MAX_DEPTH = 12
@@ -53,7 +53,7 @@ class CallMixin:
             return self.reduce_call(node, st)
         if fn in ('namedtuple', 'collections.namedtuple') and not (isinstance(f, ast.Name) and f.id in st.env):
             return self.namedtuple_call(node, st)
-        if isinstance(f, ast.Name) and not self.shadowed(f.id, st):
+        if isinstance(f, ast.Name) and not self.shadowed(f.id, st) and f.id != 'super':
             return self.builtin(f.id, node, st)
         if isinstance(f, ast.Attribute):
             if self.is_noeffect_call(f, st):
@@ -63,11 +63,28 @@ class CallMixin:
             base = self.ev(f.value, st)
             if st.dead:
                 return None
+            if isinstance(base, Obj) or type(base).__name__ == 'Super':
+                target = self.get_attr(base, f.attr, st, node)
+                if st.dead:
+                    return None
+                args, kwargs = self.eval_args(node, st)
+                if st.dead:
+                    return None
+                if isinstance(target, FuncValue):
+                    return self.run_function(target, args, kwargs, st)
+                return self.call_object(target, args, kwargs, st, node)
             if isinstance(base, dict) and f.attr in ('update', 'setdefault', 'pop') and isinstance(f.value, ast.Name) \
                     and f.value.id in st.env:
                 return self.local_dict_update(f.value.id, base, f.attr, node, st)
             return self.method(base, f.attr, node, st)
+        if isinstance(f, ast.Name) and f.id == 'super' and f.id not in st.env and not self.model.bind_count.get('super'):
+            return self.super_value(node, st)
         callee = self.ev(f, st)
+        if isinstance(callee, (ClassValue, BoundMethod, Obj)):
+            args, kwargs = self.eval_args(node, st)
+            if st.dead:
+                return None
+            return self.call_object(callee, args, kwargs, st, node)
         if isinstance(callee, RecordType):
             args, kwargs = self.eval_args(node, st)
             if st.dead:
